@@ -27,10 +27,11 @@ fn actions() -> Vec<Expr> {
         p(Action::FPrint0("f".into())),
         p(Action::FPrintf("f".into(), fmt_nl.clone())),
         p(Action::FPrintf("f".into(), fmt_no.clone())),
-        p(Action::FPrint("g".into())),
-        p(Action::FPrint0("g".into())),
-        p(Action::FPrintf("g".into(), fmt_nl)),
-        p(Action::FPrintf("g".into(), fmt_no)),
+        // the second file name is hostile on purpose: the table must carry it unchanged
+        p(Action::FPrint("g \"q\\".into())),
+        p(Action::FPrint0("g \"q\\".into())),
+        p(Action::FPrintf("g \"q\\".into(), fmt_nl)),
+        p(Action::FPrintf("g \"q\\".into(), fmt_no)),
         p(Action::Quit),
         Expr::Test(Test::True),
     ]
